@@ -965,6 +965,7 @@ TIMEOUT_WORDS = ("Timeout", "did not terminate", "timed out", "in time")
 
 def run(ctx):
     os.makedirs(TMP, exist_ok=True)
+    t_start = time.time()
     big = ctx.thorough or ctx.escalated()
     n_graphs = 2400 if ctx.thorough else (260 if ctx.escalated() else 130)
     n_graphs = int(os.environ.get("C01_NGRAPHS", n_graphs))  # development aid
@@ -982,7 +983,9 @@ def run(ctx):
     tasks = zero_end_tasks() + tasks
     stats = {"runs": 0, "ok": 0, "dist": {}, "nontrivial": set()}
     nproc = min(14, os.cpu_count() or 4)
+    t_gen = time.time() - t_start
     reports = run_pool(tasks, nproc)
+    t_pool = time.time() - t_start - t_gen
     # never raise an alarm on timing alone: runs that ended in a timeout are repeated, few at a time, with a
     # five-minute mailbox timeout; only a timeout that persists is reported
     redo = []
@@ -999,7 +1002,13 @@ def run(ctx):
         stats["dist"]["cases_repeated_after_timeout"] = len(redo)
     for rep in reports:
         classify(ctx, rep, stats)
+    t_cls = time.time()
     compare_model(ctx, reports, stats)
+    ctx.notes.append("timing: generation %.1fs, worker pool %.1fs (%d workers), model comparison %.1fs; in workers: "
+                     "import+oracle %.0fs, warm-up compile %.0fs, runs %.0fs (summed over workers)"
+                     % (t_gen, t_pool, nproc, time.time() - t_cls,
+                        sum(r.get("t_import", 0) for r in reports), sum(r.get("t_warm", 0) for r in reports),
+                        sum(x.get("t", 0) for r in reports for x in r.get("runs", []))))
     ctx.count("get_iter", stats["runs"], len(stats["nontrivial"]), stats["dist"])
     for rep in reports[:3]:
         if rep.get("runs"):
